@@ -169,6 +169,20 @@ def gen_c08(rnd, n, thorough=False):
             for nm in names:
                 observe_all(gl, 'h/' + nm[2:], layout)
             cases.append({'id': 'c08-%d-glob' % c, 'lines': gl, 'tags': {'layout': lname, 'dest': 'glob', 'window': 'default'}})
+        if c == 2:
+            # glob mode over a source that is being written: while the first matched file is copied (its
+            # destination is kept locked for two clock seconds) a later matched file receives a point;
+            # the default window of that later file ends at ITS clock, so the point is copied
+            l2 = CLI_LAYOUTS[rnd.pick(['two_1s', 'three_1s', 'single'])]
+            gl = []
+            for nm in ('g/y/a.wsp', 'g/y/b.wsp', 'h/y/a.wsp'):
+                gl += fill_ops(rnd, nm, l2, m, xff, density=0.4, inconsistent=False)
+            if rnd.chance(0.5):
+                gl += fill_ops(rnd, 'h/y/b.wsp', l2, m, xff, density=0.4, inconsistent=False)
+            gl += ["clicopy src=g:y/*.wsp dest=h: from=0 until=0 archive=-1 copynan=%d m=%d x=%08x layout=%s live=g/y/b.wsp hold=h/y/a.wsp" % (copynan, m, xff, lay_csv(l2))]
+            observe_all(gl, 'h/y/b.wsp', l2, until='@+9', now='@+9')
+            gl.append("clidiff src=g:y/*.wsp dest=h: from=0 until=0 archive=-1")
+            cases.append({'id': 'c08-%d-live' % c, 'lines': gl, 'tags': {'layout': 'live', 'dest': 'glob_live_source', 'window': 'default'}})
     return cases
 
 
@@ -224,9 +238,15 @@ def gen_c09(rnd, n, thorough=False):
             # concurrent read fails first: not determined, not generated
             arch = rnd.pick([-1] + list(range(k)))
         db, dr = dest.split('/', 1)
-        lines.append("clidiff src=s:a.wsp dest=%s:%s from=%s until=%s archive=%d" % (db, dr, frm, until, arch))
-        lines.append("clidiff src=%s:%s dest=s:a.wsp from=%s until=%s archive=%d" % (db, dr, frm, until, arch))   # symmetric verdict
-        cases.append({'id': 'c09-%d' % c, 'lines': lines, 'tags': {'layout': lname, 'pair': kind, 'window': wk}})
+        # either side may be the URL of a server serving the same directory (the verdict is the same)
+        side = rnd.pick(['local', 'local', 'remote_src', 'remote_dest'])
+        if kind.startswith('missing') or kind == 'unsynced_dest':
+            side = 'local'
+        r1 = {'local': '', 'remote_src': ' remote=1', 'remote_dest': ' remotedest=1'}[side]
+        r2 = {'local': '', 'remote_src': ' remotedest=1', 'remote_dest': ' remote=1'}[side]
+        lines.append("clidiff src=s:a.wsp dest=%s:%s from=%s until=%s archive=%d%s" % (db, dr, frm, until, arch, r1))
+        lines.append("clidiff src=%s:%s dest=s:a.wsp from=%s until=%s archive=%d%s" % (db, dr, frm, until, arch, r2))   # symmetric verdict
+        cases.append({'id': 'c09-%d' % c, 'lines': lines, 'tags': {'layout': lname, 'pair': kind, 'window': wk, 'side': side}})
         if rnd.chance(0.2):
             gl = []
             names = ['x/a.wsp', 'y/a.wsp', 'y/b.wsp']
@@ -292,9 +312,40 @@ def gen_c10(rnd, n, thorough=False):
         hold = ''
         if kind == 'order':
             hold = ' hold=s/%s/f0.wsp:300' % items[0].replace('.', '/')
+        elif rnd.chance(0.3):
+            hold = ' remote=1'         # the files summed by a server (the same sum)
         lines.append("clisum base=s item=%s src=%s from=%s until=%s archive=%d header=%d%s spell=%d" % (itempat, srcpat, frm, until, arch, rnd.pick([0, 1]), hold, rnd.pick([0, 0, 1, 2, 3, 4])))
-        cases.append({'id': 'c10-%d' % c, 'lines': lines, 'tags': {'layout': lname, 'kind': kind, 'files': nfiles, 'window': wk}})
+        cases.append({'id': 'c10-%d' % c, 'lines': lines, 'tags': {'layout': lname, 'kind': kind, 'files': nfiles, 'window': wk, 'remote': int('remote' in hold)}})
+        if c == 1:
+            cases.append(many_files_case(rnd, 'c10-%d-many' % c, ['sum']))
     return cases
+
+
+def many_files_case(rnd, cid, subs):
+    """one item with 66 to 90 files (more than any batch or worker pool), one of them unreadable at a
+    random position: the sum of all but that one is not a sum -- the commands report the error"""
+    layout = [(1, 6), (3, 4)]
+    nfiles = rnd.randint(66, 90)
+    r = rnd.random()
+    bad = rnd.randrange(64) if r < 0.6 else (rnd.randrange(nfiles) if r < 0.85 else None)      # mostly within the first 64
+    lines = []
+    for j in range(nfiles):
+        nm = 's/i1/f%02d.wsp' % j
+        if j == bad:
+            lines += ["create %s %s m 2 x 3f000000" % (nm, fmt_layout(layout)), "drop %s" % nm]
+        else:
+            lines += fill_ops(rnd, nm, layout, 2, 0x3f000000, density=0.5, inconsistent=False)
+    common = "base=s item=i1 src=f*.wsp"
+    for sub in subs:
+        if sub == 'sum':
+            lines.append("clisum %s from=0 until=0 archive=-1 header=1 remote=%d" % (common, rnd.pick([0, 1])))
+            lines.append("clisum %s from=0 until=0 archive=7 header=1" % common)      # every read fails
+        elif sub == 'sumdiff':
+            lines.append("clisumdiff %s destbase=e dest=sum.wsp from=0 until=0 archive=-1" % common)
+        elif sub == 'sumcopy':
+            lines += ["clisumcopy %s destbase=e dest=sum.wsp from=0 until=0 archive=-1 m=2 x=3f000000 layout=%s" % (common, lay_csv(layout))]
+            observe_all(lines, 'e/i1/sum.wsp', layout)
+    return {'id': cid, 'lines': lines, 'tags': {'layout': 'tiny', 'kind': 'many_files', 'files': nfiles, 'window': 'default', 'src': 'many', 'dest': 'missing', 'sub': {s_: 1 for s_ in subs}}}
 
 
 def gen_c11(rnd, n, thorough=False):
@@ -397,7 +448,10 @@ def gen_c20(rnd, n, thorough=False):
         if c % 3 == 1:
             # the generator and the per-archive write at an explicit generation instant: aligned or
             # not to each step, in the last finer slot of a coarser interval, before and after 2^31
-            layout = rnd.pick(lay + [[(1, 7), (7, 10)], [(2, 3), (6, 5)], [(1, 5), (5, 4), (20, 3)], [(1, 4), (4, 2), (8, 6)]])
+            # ... and coarser archives less than one of their own steps longer than the finer one
+            layout = rnd.pick(lay + [[(1, 7), (7, 10)], [(2, 3), (6, 5)], [(1, 5), (5, 4), (20, 3)], [(1, 4), (4, 2), (8, 6)],
+                                     [(1, 9), (6, 2)], [(1, 12), (10, 2)], [(1, 3), (2, 2)], [(1, 9), (4, 3), (8, 2)], [(60, 90), (3600, 2)],
+                                     [(1, 9), (6, 2)], [(1, 9), (4, 3), (8, 2)]])
             top = layout[-1][0]
             base = rnd.pick([1700000000, 1700000000, 2 ** 31 - 40, 2 ** 31 + 1000, 2 ** 31 + 10 ** 8, 3 * 10 ** 9])
             now = base + rnd.pick([0, rnd.randrange(top), top - 1 - base % top, rnd.randrange(10 ** 5)])
@@ -611,6 +665,8 @@ def gen_c16(rnd, n, thorough=False):
                 lines.append("cligenerate dest=%s m=%d x=%08x layout=%s max=10 fill=1%s" % (gname, m, xff, lay_csv(glay), t))
                 lines.append("hdrof %s" % gname)
         cases.append({'id': 'c16-%d' % c, 'lines': lines, 'tags': {'layout': lname, 'src': srckind, 'dest': destkind, 'sub': hist}})
+        if c == 1:
+            cases.append(many_files_case(rnd, 'c16-%d-many' % c, ['sum', 'sumdiff', 'sumcopy']))
     return cases
 
 
